@@ -64,6 +64,55 @@ let run_array toks =
     add (fmt_list s.ashape ^ " " ^ fmt_list s.adata)
   | _ -> add "BAD-CASE"
 
+
+(* ---------------------------------------------------------------- spectrum-level ops *)
+let parse_q tok : qc =
+  match String.split_on_char '/' tok with
+  | [n] -> qc_of (ZA.of_string n) ZA.one
+  | [n; d] -> qc_of (ZA.of_string n) (ZA.of_string d)
+  | _ -> failwith "bad rational"
+let parse_qs s = if s = "-" then [] else List.map parse_q (String.split_on_char ',' s)
+let fmt_q (q : qc) =
+  let n = qc_num q and d = qc_den q in
+  if ZA.equal d ZA.one then zs n else zs n ^ "/" ^ zs d
+let fmt_qs l = if l = [] then "-" else String.concat "," (List.map fmt_q l)
+let mk_spec sh data : spectrum = { adata = parse_qs data; ashape = parse_list sh }
+let fmt_spec (y : spectrum) = fmt_list y.ashape ^ " " ^ fmt_qs y.adata
+
+let fill_of = function
+  | "nan" -> FillNan | "zero" -> FillZero | "minus-one" -> FillMinusOne | "inf" -> FillInf
+  | _ -> failwith "bad fill"
+let fmt_cell = function
+  | Val q -> fmt_q q
+  | Filled FillNan -> "nan" | Filled FillZero -> "0" | Filled FillMinusOne -> "-1" | Filled FillInf -> "inf"
+
+let fmt_perr = function
+  | PEmpty -> "ERR empty"
+  | PInvalidProjection (d, f, t) -> "ERR invalid " ^ zs d ^ " " ^ zs f ^ " " ^ zs t
+  | PUnequalDimensions (f, t) -> "ERR unequal " ^ zs f ^ " " ^ zs t
+  | PZero -> "ERR zero"
+
+let run_spectrum toks =
+  match toks with
+  | ["fold"; sh; data; fill] ->
+    let x = mk_spec sh data in
+    let cells = folded_cells x (fill_of fill) in
+    add (fmt_list x.ashape ^ " " ^ (if cells = [] then "-" else String.concat "," (List.map fmt_cell cells)))
+  | ["marg"; sh; data; axes] ->
+    (match marginalize (mk_spec sh data) (parse_list axes) with
+     | Inl y -> add ("OK " ^ fmt_spec y)
+     | Inr (DuplicateAxis a) -> add ("ERR dup " ^ zs a)
+     | Inr (AxisOutOfBounds (a, d)) -> add ("ERR oob " ^ zs a ^ " " ^ zs d)
+     | Inr (TooManyAxes (n, d)) -> add ("ERR many " ^ zs n ^ " " ^ zs d))
+  | ["keep"; d; keep] -> add (fmt_list (keep_to_remove (ZA.of_string d) (parse_list keep)))
+  | ["project"; sh; data; tosh] ->
+    (match project (mk_spec sh data) (parse_list tosh) with
+     | Inl y -> add ("OK " ^ fmt_spec y)
+     | Inr e -> add (fmt_perr e))
+  | ["pmf"; a; b; c; d] -> add (fmt_q (hyp (ZA.of_string a) (ZA.of_string b) (ZA.of_string c) (ZA.of_string d)))
+  | ["binom"; n; k] -> add (zs (binomN (ZA.of_string n) (ZA.of_string k)))
+  | _ -> add "BAD-CASE"
+
 let run_case line =
   let toks = split_ws line in
   match toks with
@@ -71,6 +120,7 @@ let run_case line =
   | op :: _ ->
     (match op with
      | "get" | "getaxis" | "view" | "axisiter" | "indices" | "sum" -> run_array toks
+     | "fold" | "marg" | "keep" | "project" | "pmf" | "binom" -> run_spectrum toks
      | _ -> add ("UNKNOWN-OP " ^ op))
 
 let () =
